@@ -149,7 +149,7 @@ theorem update_ok {d : CS υ} (hI : Full lower ettl Iυ d) (s : Svc) (hs : SvcSa
 
 theorem QShape.purge {q : Reply.Queue} (h : QShape q) (W : List Nat) : QShape (purgeQueue W q) := by
   obtain ⟨h1, h2⟩ := h
-  unfold purgeQueue
+  unfold purgeQueue Reply.Queue.removeRecords
   refine ⟨?_, ?_⟩
   · simp only [List.map_eq_nil_iff]; exact h1
   · exact List.Pairwise.map _ (fun a b hab => hab) h2
